@@ -5,7 +5,6 @@ import (
 	"encoding/json"
 	"fmt"
 	"net/http"
-	"net/http/httptest"
 	"os"
 	"path/filepath"
 	"reflect"
@@ -293,7 +292,7 @@ func (w *World) ConnectLibWithin(handshake time.Duration, real bool, child *Chil
 		}
 		o := []mcp.ClientOption{mcp.WithClientLogger(nopLogger{})}
 		if real {
-			ts := httptest.NewServer(http.HandlerFunc(h))
+			ts := ServeTCP(http.HandlerFunc(h))
 			l.cleanup = append(l.cleanup, ts.Close)
 			url = ts.URL + url[len("http://verif.invalid"):]
 		} else {
